@@ -114,7 +114,12 @@ impl Stats {
             *self.discarded.entry(k).or_insert(0) += v;
         }
         for (k, v) in o.extra {
-            *self.extra.entry(k).or_insert(0) += v;
+            let e = self.extra.entry(k.clone()).or_insert(0);
+            if k.starts_with("slowest-") {
+                *e = (*e).max(v);
+            } else {
+                *e += v;
+            }
         }
         for s in o.samples {
             if self.samples.len() < MAX_SAMPLES * 2 {
@@ -365,7 +370,19 @@ where
                         }
                         let mut st = stats.borrow_mut();
                         st.evaluations += 1;
-                        match test(&v, &mut st) {
+                        let t_case = std::time::Instant::now();
+                        let r_case = test(&v, &mut st);
+                        let ms = t_case.elapsed().as_millis() as u64;
+                        if ms >= 1000 {
+                            *st.extra.entry("cases-slower-than-1s".into()).or_insert(0) += 1;
+                            if std::env::var("VERIF_DEBUG").is_ok() {
+                                let d = format!("{v:?}");
+                                eprintln!("DEBUG slow case {ms} ms: {}", &d[..d.len().min(600)]);
+                            }
+                        }
+                        let e = st.extra.entry("slowest-case-ms".into()).or_insert(0);
+                        *e = (*e).max(ms);
+                        match r_case {
                             Ok(()) => Ok(()),
                             Err(f) => {
                                 failed.set(true);
